@@ -881,6 +881,71 @@ def _inline_in_function(func, owner, classes, modfuncs, known):
     return n
 
 
+# ------------------------------------------------------------ unrolling
+def unroll_literal_loops(func, known_locals):
+    """`for a, b in ((x1, y1), (x2, y2)): BODY` with loop variables the
+    reference does not know and no break/continue in BODY: the iterations
+    are written out (a duplicated block that was folded into a loop)"""
+    n = 0
+
+    def visit(lst):
+        nonlocal n
+        i = 0
+        while i < len(lst):
+            st = lst[i]
+            for fld in ("body", "orelse", "finalbody"):
+                sub = getattr(st, fld, None)
+                if isinstance(sub, list) and sub and isinstance(
+                        sub[0], ast.stmt) and not isinstance(
+                            st, FUNC + (ast.ClassDef,)):
+                    visit(sub)
+            if isinstance(st, ast.Try):
+                for h in st.handlers:
+                    visit(h.body)
+            rep = unroll(st)
+            if rep is not None:
+                lst[i:i + 1] = rep
+                n += 1
+                i += len(rep)
+            else:
+                i += 1
+
+    def unroll(st):
+        if not isinstance(st, ast.For) or st.orelse or not isinstance(
+                st.iter, (ast.Tuple, ast.List)) or not (
+                    1 <= len(st.iter.elts) <= 4):
+            return None
+        tnames = [x.id for x in ast.walk(st.target)
+                  if isinstance(x, ast.Name)]
+        if not tnames or any(t in known_locals for t in tnames):
+            return None
+        for x in st.body:
+            for y in ast.walk(x):
+                if isinstance(y, (ast.Break, ast.Continue)):
+                    return None
+                if isinstance(y, ast.Name) and y.id in tnames and \
+                        isinstance(y.ctx, (ast.Store, ast.Del)):
+                    return None
+        out = []
+        for e in st.iter.elts:
+            if isinstance(st.target, ast.Name):
+                m = {st.target.id: e}
+            elif isinstance(st.target, ast.Tuple) and isinstance(
+                    e, (ast.Tuple, ast.List)) and len(e.elts) == len(
+                        st.target.elts) and all(isinstance(
+                            t, ast.Name) for t in st.target.elts):
+                m = {t.id: v for t, v in zip(st.target.elts, e.elts)}
+            else:
+                return None
+            t = _ParamSubst(m)
+            out.extend(t.visit(_clone(b)) for b in st.body)
+        for b in out:
+            ast.fix_missing_locations(b)
+        return out
+    visit(func.body)
+    return n
+
+
 # ------------------------------------------------------------- temporaries
 def inline_temporaries(func, known_locals):
     """substitute single-assignment locals the reference does not know"""
